@@ -240,6 +240,9 @@ def _child_xml(c, out, ind):
             a.append(("datatype", "string"))
         if c.get("required"):
             a.append(("required", "yes"))
+        elif c.get("default") is not None and len(c["name"]) % 3 == 0:
+            # the redundant spelling: not required, said so
+            a.append(("required", "no"))
         if c.get("handler"):
             a.append(("handler", c["handler"]))
         if c.get("default") is not None:
